@@ -6,11 +6,11 @@ from py_gql.execution import BlockingExecutor, Executor
 from harness import execworld as W
 
 CONFIGS = ("generic-executor/blocking-runtime", "thread-pool (stub pool)", "asyncio coroutines (DetLoop)", "asyncio plain functions")
-NT = len(W.TEMPLATES)
+NT = len(W.TEMPLATES) if thorough() else 6       # the two widest templates (7-8 in-flight tasks) are thorough-only
 
 
-def kinds_for(ka, ko, kx):
-    return {"a": ka, "m3": ka, "o": ko, "l": ko, "n": ko, "m1": ko, "m2": ko, "x": kx}
+def kinds_for(ka, ko, kx, ky=0):
+    return {"a": ka, "m3": ka, "o": ko, "l": ko, "n": ko, "m1": ko, "m2": ko, "x": kx, "y": ky}
 
 
 def make_chooser(sched):
@@ -44,12 +44,12 @@ def agree(base, got, multi_unexpected):
     return got == base
 
 
-def _schedules(t: int, ka: int, ko: int, kx: int, nn: bool, cfg: int, s0: int, s1: int, s2: int, s3: int, s4: int, s5: int) -> bool:
+def _schedules(t: int, ka: int, ko: int, kx: int, nn: bool, cfg: int, s0: int, s1: int, s2: int, s3: int, s4: int, s5: int, s6: int = 0, s7: int = 0) -> bool:
     """
     pre: 0 <= t < NT and 0 <= ka <= 3 and 0 <= ko <= 3 and 0 <= kx <= 3 and 0 <= cfg <= 3
-    pre: 0 <= s0 <= 5 and 0 <= s1 <= 4 and 0 <= s2 <= 3 and 0 <= s3 <= 2 and 0 <= s4 <= 1 and s5 == 0
+    pre: 0 <= s0 <= 7 and 0 <= s1 <= 6 and 0 <= s2 <= 5 and 0 <= s3 <= 4 and 0 <= s4 <= 3 and 0 <= s5 <= 2 and 0 <= s6 <= 1 and s7 == 0
     pre: shard_of(t * 4 + cfg)
-    pre: world_in_tier(ka, ko, kx)
+    pre: world_in_tier(ka, ko, kx, t)
     post: _
     """
     T = concrete_int(t, 0, NT - 1)
@@ -58,17 +58,17 @@ def _schedules(t: int, ka: int, ko: int, kx: int, nn: bool, cfg: int, s0: int, s
     name, query = W.TEMPLATES[T]
     if NNULL and "nn" not in query:
         return result(True, False)
-    if C == 0 and (s0 != 0 or s1 != 0 or s2 != 0 or s3 != 0 or s4 != 0):
+    if C == 0 and (s0 != 0 or s1 != 0 or s2 != 0 or s3 != 0 or s4 != 0 or s5 != 0 or s6 != 0):
         return result(True, False)           # no schedule dimension on the blocking runtime
     with untraced():
-        kinds = kinds_for(KA, KO, KX)
+        kinds = kinds_for(KA, KO, KX, 1 if T >= 6 else 0)        # the wide templates also defer y
         base, _ = W.run_blocking(kinds, query, BlockingExecutor, NNULL)
-        got, w = run_config(C, kinds, query, [s0, s1, s2, s3, s4, s5], NNULL)
+        got, w = run_config(C, kinds, query, [s0, s1, s2, s3, s4, s5, s6, s7], NNULL)
         if got[0] == "pruned":
             return result(True, False)
         # schedule entries beyond the number of steps actually taken must be 0 (canonical form, avoids duplicate paths)
         steps = getattr(w, "steps", 0)
-    rest = [s0, s1, s2, s3, s4, s5][steps:]
+    rest = [s0, s1, s2, s3, s4, s5, s6, s7][steps:]
     for r in rest:
         if r != 0:
             return result(True, False)
@@ -78,8 +78,11 @@ def _schedules(t: int, ka: int, ko: int, kx: int, nn: bool, cfg: int, s0: int, s
     return result(ok, steps >= 2 or C == 0)
 
 
-def world_in_tier(ka, ko, kx) -> bool:
+def world_in_tier(ka, ko, kx, t) -> bool:
     if thorough():
+        # the widest templates: all-custom worlds with at most one failing group (every order of 7-8 tasks is already 5040-40320 paths)
+        if t >= 6:
+            return (ka == 1 or ka >= 2) and ko == 1 and (kx == 1 or (kx >= 2 and ka == 1))
         return True
     # quick tier: worlds where at most one field deviates from 'custom value', plus the all-default world
     vals = [ka, ko, kx]
@@ -90,15 +93,15 @@ def world_in_tier(ka, ko, kx) -> bool:
 
 CONDITIONS = [
     Cond(
-        name="schedules", fn=_schedules, quick=150, thorough=1200, per_path=60, shards_quick=16, shards_thorough=24,
+        name="schedules", fn=_schedules, quick=150, thorough=1200, per_path=60, shards_quick=16, shards_thorough=32,
         bound="6 operation templates (flat, nested, list, abstract, same-key merge, mutation) x resolver kind in {default, custom value, ResolverError, ValueError} for 3 field groups "
               "(quick: at most one group deviates from 'custom value') x Int! null or not x 4 executor/runtime configurations x EVERY completion order of the in-flight tasks (<= 6 tasks)",
-        bound_thorough="same with all 64 kind assignments",
+        bound_thorough="same with all 64 kind assignments, plus two wide templates with 7-8 in-flight tasks (every order) for all-custom worlds with at most one failing group",
         symbolic={"t": "choice: template", "ka,ko,kx": "choice: resolver kinds", "nn": "choice: Int! field resolves to null", "cfg": "choice: configuration",
                   "s0..s5": "choice: which pending task completes next at each step"},
         assumptions=["ThreadPoolRuntime._inner replaced by a recording stub pool; tasks run on the harness thread in the solver-chosen order (future callbacks atomic)",
                      "asyncio: DetLoop.time() == 0.0; deferred resolvers await harness-completed futures; the loop's own ready-queue order is the real one",
                      "baseline = BlockingExecutor on the blocking runtime for the same world"],
-        witness={"t": 1, "ka": 1, "ko": 1, "kx": 1, "nn": False, "cfg": 1, "s0": 0, "s1": 0, "s2": 0, "s3": 0, "s4": 0, "s5": 0},
+        witness={"t": 1, "ka": 1, "ko": 1, "kx": 1, "nn": False, "cfg": 1, "s0": 0, "s1": 0, "s2": 0, "s3": 0, "s4": 0, "s5": 0, "s6": 0, "s7": 0},
     ),
 ]
